@@ -8,6 +8,8 @@
   word boundaries / paragraph breaks.
 -/
 import YalafiVerif.Proofs.Replace
+import YalafiVerif.Proofs.PlainRepl
+import YalafiVerif.Generated.Init
 namespace Yalafi
 
 /-- C13 (bookkeeping, full): equal lengths, and the output is exactly the per-index
@@ -61,6 +63,43 @@ theorem C13_replacePhrases (T : Tables) (txt : Str) (pos : List Nat) (lines : Li
     (replacePhrases T txt pos lines).1.length = (replacePhrases T txt pos lines).2.length ∧
     ∀ p ∈ (replacePhrases T txt pos lines).2, p ∈ pos :=
   replacePhrases_ok T txt pos lines hlen
+
+/-- **phrase replacement end to end on the filter model**: for a source of inert characters and any
+    replacement list (`--repl`), `tex2txt` returns exactly `replace_phrases` of the source with the
+    identity map (so everything above applies to the filter's output): text and position list have
+    equal length and every reported position lies in 1 … len(source); no unknowns, no diagnostics -/
+theorem C13_tex2txt_plain_repl (T : PTables) (o : Options) (fs : FS) (thresh : Nat) (src : Str) (fuel : Nat)
+    (st1 : PState) (hdefs : o.defs = []) (hextr : o.extr = []) (hrepl : o.hasRepl = true)
+    (hunkn : o.unkn = false)
+    (hinit : initParser T fuel o (initialState T o false fs) = .ok ((), st1))
+    (h : ∀ c ∈ src, inertChar T st1 c = true) (hf : src.length + 2 ≤ fuel) :
+    ∃ r, tex2txt T fuel src o false thresh fs = .ok r ∧
+      r.txt = (replacePhrases T.toTables src (List.range src.length) o.repl).1 ∧
+      r.pos = (replacePhrases T.toTables src (List.range src.length) o.repl).2.map (· + 1) ∧
+      r.txt.length = r.pos.length ∧ (∀ p ∈ r.pos, 1 ≤ p ∧ p ≤ src.length) ∧
+      r.unknowns = [] ∧ r.diags = st1.diags :=
+  tex2txt_plain_repl T o fs thresh src fuel st1 hdefs hextr hrepl hunkn hinit h hf
+
+/-- options with a replacement list: initialisation of the parser does not look at it -/
+def replOptions (lines : List Str) : Options := { Generated.defaultOptions with repl := lines, hasRepl := true }
+
+theorem initParser_repl (lines : List Str) :
+    initParser Generated.theTables Generated.bigFuel (replOptions lines)
+      (initialState Generated.theTables (replOptions lines) false []) = .ok ((), Generated.stDefault) :=
+  Generated.initParser_default
+
+/-- instance for the tables of the current /repo: the rule `z. B. & zum Beispiel` on a German sentence -/
+theorem C13_tex2txt_plain_repl_current :
+    ∃ r, tex2txt Generated.theTables Generated.bigFuel "Das ist z. B. so.".toList
+          (replOptions ["z. B. & zum Beispiel".toList]) false 2 [] = .ok r ∧
+      r.txt = "Das ist zum Beispiel so.".toList ∧
+      r.pos = [1, 2, 3, 4, 5, 6, 7, 8, 9, 10, 11, 12, 13, 13, 13, 13, 13, 13, 13, 13, 14, 15, 16, 17] := by
+  obtain ⟨r, hr, ht, hp, _⟩ := C13_tex2txt_plain_repl Generated.theTables (replOptions ["z. B. & zum Beispiel".toList]) [] 2
+    "Das ist z. B. so.".toList Generated.bigFuel Generated.stDefault rfl rfl rfl rfl (initParser_repl _)
+    (by decide +kernel) (by decide)
+  refine ⟨r, hr, ?_, ?_⟩
+  · rw [ht]; decide +kernel
+  · rw [hp]; decide +kernel
 
 /-- non-vacuity: a concrete two-rule run -/
 example : SpansOk 0 9 [⟨0, 2⟩, ⟨5, 3⟩] := by simp [SpansOk]
